@@ -188,7 +188,7 @@ def _worker(task):
     modname, part, nparts, seed, tier = task
     mod = common.module(modname)
     sc = G.budget_scale(mod)
-    P = dict((k, G.scaled(v, sc)) for k, v in PARAMS[tier].items())
+    P = G.scaled_params(PARAMS[tier], sc)
     rng = G.task_rng(seed, PROPERTY, modname, part)
     fnd, st = G.Findings(), G.Stats()
     valid = G.part_slice(G.diverse(common.valid_numbers(modname), 10 ** 6), part, nparts)
